@@ -103,6 +103,17 @@ def flag_subcommand_lookup_canonical(fx, res, rule):
         b = fx.body(q)
         for t in tree(b):
             if t is b:
+                # the loop form (`for sc in .. { if hit { return Some(sc.get_name()) } }`): a Some(..) built here from alias / flag text is the same slip
+                for (bb, idx, lhs, rhs) in t.def_sites(0):
+                    if isinstance(rhs, dict) and rhs["k"] == "agg" and rhs.get("ak") == "adt" and str(rhs.get("variant")) in ("Some", "1") and rhs.get("ops"):
+                        e = expr(t, rhs["ops"][0])
+                        if re.search(r"aliases|get_long_flag\(|get_short_flag\(", e) and not re.match(r"^(as_str\()?get_name\(", e):
+                            n += 1
+                            res.violation(rule, "lemma|flag-subcommand-lookup-answers-name|" + q.rsplit("::", 1)[1], t.where(),
+                                          "%s answers Some(%s) — flag / alias text, not the subcommand's get_name(): Parser::parse resolves the answer with find_subcommand(..).expect(..)" % (q.rsplit("::", 1)[1], e[:100]))
+                        elif re.match(r"^(as_str\()?get_name\(", e):
+                            n += 1
+                            res.ok(rule, "lemma|flag-subcommand-lookup-answers-name|" + q.rsplit("::", 1)[1], t.where(), "answers Some(%s)" % e[:60])
                 continue
             rty = t.local_ty(0).replace("'_ ", "")
             if rty == "&str":
